@@ -18,7 +18,9 @@ def run(ctx):
                   nrace * mult, HDR.format(imports="lib.Path model.CFS_file model.CFS_tree model.CFS_inst model.C08_run"),
                   seed_offset=off, shard=10, race=True, timeout=1500,
                   env={"VERIF_STAGE": "c13race" + suffix, "VERIF_OPS": str(ops)})
-    return standard(ctx, "C13", ["model/CFS_run.vo", "model/C08_run.vo"], stages,
+    hdr8 = HDR.format(imports="lib.Path model.CFS_file model.CFS_tree model.CFS_inst model.C08_run")
+    expr8 = "first_diff 0 (run Spec (fs_init Spec) (c_ops c)) (c_obs c)"
+    return standard(ctx, "C13", ["model/CFS_run.vo", "model/C08_run.vo"], stages, explain={"c13race": (hdr8, expr8)},
                     rule="controlled schedules: foreground operations through several handles interleaved with the completion "
                          "(any order/delay, failure modes) of background Keep writes, explicit flushes and saves; "
                          "non-trivial = at least one background write completed during the history",
